@@ -1370,6 +1370,28 @@ fn gen_c07(ctx: &mut Ctx) {
             }
         }
     }
+    // the first edit of a page built over somebody else's bytes is "set all pixels" (either value): header and padding stay
+    // as given, the length stays, the page still equals the page rebuilt from its bytes; then single pixels on top
+    for (w, h) in [(8u32, 8u32), (90, 7), (40, 12), (3, 7), (12, 8), (2, 17)] {
+        let (w64, h64) = (w as u64, h as u64);
+        let total = total_bytes(w64, h64) as usize;
+        for k in 0..8usize {
+            let bytes = rng.bytes(total);
+            let v = k % 2;
+            let (x, y) = (rng.below(w64) as u32, rng.below(h64) as u32);
+            let line = format!("PG {} {} {}.{} A.{} S.{}.{}.{} G.{}.{}", w, h, if k % 4 < 2 { "B" } else { "O" }, hex_of_bytes(&bytes), v, x, y, 1 - v, x, y);
+            let res = ctx.case(line.clone(), true, "set-all-as-first-edit");
+            let data = data_bytes(w64, h64) as usize;
+            let mut want = bytes.clone();
+            for b in want[4..data].iter_mut() {
+                *b = if v == 1 { 0xFF } else { 0 };
+            }
+            let idx = (4 + (x as u64) * bpc(h64) + (y as u64) / 8) as usize;
+            if v == 1 { want[idx] &= !(1u8 << (y % 8)); } else { want[idx] |= 1u8 << (y % 8); }
+            let ok = res.contains(&format!(" {} eq=1", hex_of_bytes(&want)));
+            ctx.monitor(ok, "C07-pixel-location", &line, &res[res.len().saturating_sub(120)..]);
+        }
+    }
     // the first edit of a page built over somebody else's bytes (borrowed, and owned) is a REDUNDANT one: a pixel is set to
     // the value it already has, in a byte where other pixels are lit -- nothing may change
     for (w, h) in [(8u32, 8u32), (90, 7), (40, 12), (7, 10), (3, 17)] {
